@@ -9,6 +9,8 @@ import BloomVerif.Lemmas.Guard
 import BloomVerif.Lemmas.Tokenizer
 import BloomVerif.Lemmas.Content
 import BloomVerif.Props.C04
+import BloomVerif.Bridge.TreeBloom
+import BloomVerif.Bridge.Guard
 namespace BloomVerif.C01
 open BloomVerif
 
@@ -104,6 +106,33 @@ example :
   have hc : FiltCovers (buildFilt nv_build (rowEntries nv_tok nv_json)) (rowEntries nv_tok nv_json) := by
     refine ⟨?_, ?_, ?_⟩ <;> (intro g hg; cases hg; decide)
   exact ⟨hc, by decide, filters_ge_exact _ _ _ hc (by decide)⟩
+
+/-- The same for the filter-test tree walk re-translated from `evaluateBloomExpression` (query_exec.go) on
+    every run: filters that contain a row's entries are never ruled out by the regenerated evaluator. -/
+theorem filters_ge_exact_generated (f : Filt) (en : Entries) (p : Option BloomExpr) (hc : FiltCovers f en)
+    (h : Expr.evalOpt (entryCond en) p = true) : Gen.evaluateBloomExpressionPtr (filtCond f) p = true := by
+  rw [Bridge.evalFilt_generated]; exact filters_ge_exact f en p hc h
+
+/-- non-vacuity: the same covering filters and prune query meet the premises of `filters_ge_exact_generated` -/
+example : Gen.evaluateBloomExpressionPtr (filtCond (buildFilt nv_build (rowEntries nv_tok nv_json))) nv_q.prune = true :=
+  filters_ge_exact_generated _ (rowEntries nv_tok nv_json) _
+    (by refine ⟨?_, ?_, ?_⟩ <;> (intro g hg; cases hg; decide)) (by decide)
+
+/-- `guard_sound` for the guard re-translated from `regexExpressionToBloomFieldExpression` (query.go) on every
+    run, evaluated by the re-translated filter-test tree walk: a row whose regex tree holds is never ruled
+    out by filters containing the row's entries. -/
+theorem guard_sound_generated (tok : Str → List Str) (re : Str → Str → Bool) (reOK : Str → Bool) (row : J)
+    (rx : RegexExpr) (hv : rxValid reOK rx = true)
+    (h : matchRegex re (emissions row) (some rx) = true) (f : Filt) (hc : FiltCovers f (rowEntries tok row)) :
+    Gen.evaluateBloomExpressionPtr (filtCond f) (Gen.regexExpressionToBloomFieldExpressionPtr (some rx)) = true := by
+  rw [Bridge.guardPtr_eq]
+  exact filters_ge_exact_generated f (rowEntries tok row) _ hc (guard_sound tok re reOK row rx hv h)
+
+/-- non-vacuity: the three-level regex tree, the nested row and filters built from the row's own entries meet the premises of `guard_sound_generated` -/
+example : Gen.evaluateBloomExpressionPtr (filtCond (buildFilt nv_build (rowEntries nv_tok nv_json)))
+    (Gen.regexExpressionToBloomFieldExpressionPtr (some nv_rx)) = true :=
+  guard_sound_generated nv_tok nv_re (fun p => !p.isEmpty) nv_json nv_rx (by decide) (by decide) _
+    (by refine ⟨?_, ?_, ?_⟩ <;> (intro g hg; cases hg; decide))
 
 /-- **C01**: whatever produced the files, if they are index-covered (`FileWF`, established by
     flush and merge: C18), every stored row that matches the bloom and regex expressions under the
